@@ -244,7 +244,13 @@ class Terms:
         return ("rv?", k)
 
     def call_term(self, t, bb):
-        return ("call", cname(t), tuple(self.operand(a) for a in t["args"]), bb)
+        args = tuple(self.operand(a) for a in t["args"])
+        callee = cname(t)
+        if self.prog is not None:
+            inl = inline_helper(self.prog, callee, args)
+            if inl is not None:
+                return inl
+        return ("call", callee, args, bb)
 
     # -------------------------------------------------------------- helpers
     def cond_of_switch(self, bb):
@@ -414,3 +420,70 @@ def show(t, depth=0):
     if k == "carg":
         return "carg%d" % t[1]
     return str(t)
+
+
+# ---------------------------------------------------------------------- private data helpers
+_HELPER = {}
+
+
+def _plain_ty(ty, depth=0):
+    k = ty.get("k")
+    if k in ("int", "bool", "char", "float"):
+        return True
+    if k == "ref":
+        return not ty.get("m") and _plain_ty(ty["t"], depth + 1)
+    if k in ("slice", "array"):
+        return _plain_ty(ty["t"], depth + 1) if "t" in ty else False
+    if k == "str":
+        return True
+    return False
+
+
+def helper_ret(prog, callee):
+    """return term of a private, straight-line free function over plain data (`fn le32(s: &[u8], o: usize) -> u32`),
+    else None.  Such helpers are inlined at term construction so that extracting one does not hide provenance."""
+    if callee in _HELPER:
+        return _HELPER[callee]
+    _HELPER[callee] = None
+    b = prog.bodies.get(callee)
+    if b is None or b.kind != "Fn" or b.j.get("is_pub") or b.j.get("impl_trait") or b.argc == 0:
+        return None
+    if not all(_plain_ty(b.locals[i]["ty"]) for i in range(0, b.argc + 1)):
+        return None
+    if b.back_edges() or any(blk["t"]["k"] == "switch" for i, blk in enumerate(b.blocks) if i in b.reachable() and not blk["cleanup"]):
+        return None
+    tm = Terms(b, prog)
+    rets = [tm.rvalue(rv) if si != "t" else tm.call_term(rv, bi) for (bi, si, rv) in tm.defs.whole[0]]
+    if len(rets) != 1 or tm.defs.partial[0]:
+        return None
+    r = rets[0]
+    if any(x[0] in ("var", "mut", "loopval", "uninit", "rv?") for x in walk(r)):
+        return None
+    _HELPER[callee] = r
+    return r
+
+
+def _subst_params(t, args):
+    if not isinstance(t, tuple) or not t or not isinstance(t[0], str):
+        return t
+    if t[0] == "param":
+        return args[t[1] - 1] if 1 <= t[1] <= len(args) else t
+    if t[0] == "call":
+        site = t[3] if isinstance(t[3], tuple) else ("cl", t[3])
+        return ("call", t[1], tuple(_subst_params(y, args) if isinstance(y, tuple) else y for y in t[2]), site)
+    out = [t[0]]
+    for x in t[1:]:
+        if isinstance(x, tuple) and x and isinstance(x[0], str):
+            out.append(_subst_params(x, args))
+        elif isinstance(x, tuple):
+            out.append(tuple(_subst_params(y, args) if isinstance(y, tuple) else y for y in x))
+        else:
+            out.append(x)
+    return tuple(out)
+
+
+def inline_helper(prog, callee, args):
+    r = helper_ret(prog, callee)
+    if r is None:
+        return None
+    return _subst_params(r, args)
